@@ -44,9 +44,23 @@ All 30 mutants are caught by their target check. Quiet neighbours are as expecte
 MUB files (C09), the extra CZ pair sits on edge (0,1) which every configuration has (C02), C10 measures all qubits in
 identity order (C11 mutant), and a longer but self-consistent table line is C05's business, not C17's.
 
-## 3. Quietness
+## 3. Changes that must NOT raise an alarm
+
+Behaviour-preserving refactorings of the library were run against the checks to look for over-reach: (a) the HSH block of
+the local layer emitted as one `sx` gate instead of `h s h` (all 19 checks quiet; the simulators interpret `sx`/`sxdg`, unknown
+gates go through their matrix); (b) a *correct* memoisation of the phase-less preparation circuit that always hands out copies,
+combined with (c) every rejection raising `ValueError` instead of `AssertionError` (C01, C02, C03, C04, C05, C07, C08, C13
+quiet). One over-reach was found earlier by a seeded change and removed (C04's comparison of two-qubit gate multisets with the
+table line).
+
+Exception injection (nine variants of the library in which one public function raises an unusual exception for one size /
+class / token / connectivity, each run against all 19 checks): every check ends with exit 0 or exit 1, never with a harness
+error, after three unguarded library calls had been found and guarded this way (DESIGN.md section 13).
+
+## 4. Quietness
 
 Every registered quick command was run on the repaired tree at VERIF_SEED = 1, 2, 3, 7 and 11 in fresh processes
+(about 8.6 minutes per seed for all nineteen on an idle machine)
 (`tools_quiet.sh`); all exit 0 with no VIOLATION line (C05 prints its 570 KNOWN-FINDING lines). `vp check` (fresh copy of the
 sandbox, offline) reported nothing needing attention.
 """
